@@ -68,8 +68,8 @@ MUTANTS += [
          old='            svd_kwargs["return_singular_vectors"] = "vh"\n            _, _, Vt = scipy.sparse.linalg.svds(X, **svd_kwargs)\n            new_pi = (np.real(Vt) ** 2.0).sum(axis=0)',
          new='            svd_kwargs["return_singular_vectors"] = "vh"\n            _, _, Vt = scipy.sparse.linalg.svds(X @ X.T @ X, **svd_kwargs)\n            new_pi = (np.real(Vt) ** 2.0).sum(axis=0)'),
     dict(name="c07_orth_wrong_axis", prop="C07", file=SEL,
-         old="            self.X_current_ = X_orthogonalizer(\n                x1=self.X_current_.T, c=last_selected, tol=self.tolerance\n            ).T\n\n\nclass _PCovCUR",
-         new="            self.X_current_ = X_orthogonalizer(\n                x1=self.X_current_, c=last_selected % self.X_current_.shape[1], tol=self.tolerance\n            )\n\n\nclass _PCovCUR"),
+         old="            self.X_current_ = X_orthogonalizer(\n                x1=self.X_current_.T, c=last_selected, tol=tol\n            ).T\n\n\nclass _PCovCUR",
+         new="            self.X_current_ = X_orthogonalizer(\n                x1=self.X_current_, c=last_selected % self.X_current_.shape[1], tol=tol\n            )\n\n\nclass _PCovCUR"),
     dict(name="c07_yfeat_no_update", prop="C07", file=SEL,
          old="                self.y_current_ = Y_feature_orthogonalizer(\n                    self.y_current_, X=self.X_selected_, tol=self.tolerance\n                )", new="                pass"),
     dict(name="c07_smallest_eigvecs", prop="C07", file=SEL,
